@@ -466,8 +466,9 @@ theorem create_digits : ∀ d ∈ digitStrings,
 
 /-- what `__getattr__` does with an accepted name, as a function of its groups: `c…` names need the key in
 `modulus_keys` and are served from `modulus_isothermal` exactly when the suffix is `t`, otherwise from `modulus_adiabatic`;
-`s…` names need the key in `_compliances` and are served from it WHATEVER the suffix (the test
-`res.group(1) == 't'` of the source can never hold: `s11t` is the adiabatic compliance, not an error) -/
+`s…` names need the key in `_compliances` (the inverse of the ADIABATIC stiffness) and are served from it for suffix `s` or none;
+with suffix `t` AttributeError (there is no isothermal compliance table).  (Before the repair of the source the inner test read
+`res.group(1) == 't'`, which never holds, and `s11t` returned the adiabatic compliance: that spelling no longer checks against this.) -/
 def expected (hasKey : String → Modulus → Bool) (q : Parsed) : Outcome :=
   let key := keyOfVoigt (canon (pairOfDigits q.digits))
   if q.pre = 'c' then
@@ -475,7 +476,9 @@ def expected (hasKey : String → Modulus → Bool) (q : Parsed) : Outcome :=
       (if q.suf = some 't' then .served "modulus_isothermal" key else .served "modulus_adiabatic" key)
     else .attributeError
   else
-    if hasKey "_compliances" key then .served "_compliances" key else .attributeError
+    if hasKey "_compliances" key then
+      (if q.suf = some 't' then .attributeError else .served "_compliances" key)
+    else .attributeError
 
 theorem resolve_gen (hasKey : String → Modulus → Bool) (name : String) :
     resolve regexParts getattrMatchFn getattrBranches hasKey name =
@@ -530,7 +533,7 @@ theorem lookup_c_gen {β : Type} (s : Stores β) (hkeys : s.keys = s.adiabatic.m
   · rw [if_neg (fun h => hmem (by obtain ⟨x, hx, e⟩ := List.any_eq_true.1 h; rw [← of_decide_eq_true e]; exact hx)),
       find_none_of_not_mem _ _ hmem]
 
-theorem lookup_s_gen {β : Type} (s : Stores β) (name : String) (d : List Char) (suf : Option Char)
+theorem lookup_s_gen {β : Type} (s : Stores β) (name : String) (d : List Char) (suf : Option Char) (hsuf : suf ≠ some 't')
     (hm : matchName regexParts getattrMatchFn name.toList = some ⟨'s', d, suf⟩) :
     lookup regexParts getattrMatchFn getattrBranches s name = find s.compliances (keyOfVoigt (canon (pairOfDigits d))) := by
   unfold lookup
@@ -540,13 +543,26 @@ theorem lookup_s_gen {β : Type} (s : Stores β) (name : String) (d : List Char)
     | _ => none) = _
   unfold expected
   have hsc : ¬ (⟨'s', d, suf⟩ : Parsed).pre = 'c' := by show ¬ 's' = 'c'; decide
-  rw [if_neg hsc, hasKey_compliances]
+  rw [if_neg hsc, hasKey_compliances, if_neg hsuf]
   cases hf : find s.compliances (keyOfVoigt (canon (pairOfDigits d))) with
   | none => rfl
   | some x =>
     rw [Option.isSome_some, if_pos rfl]
     show (s.get "_compliances").bind _ = _
     rw [get_compliances]; exact hf
+
+/-- an accepted `s…t` name raises AttributeError whatever the dictionaries hold -/
+theorem resolve_s_t_gen (hasKey : String → Modulus → Bool) (name : String) (d : List Char)
+    (hm : matchName regexParts getattrMatchFn name.toList = some ⟨'s', d, some 't'⟩) :
+    resolve regexParts getattrMatchFn getattrBranches hasKey name = .attributeError := by
+  rw [resolve_gen, hm]
+  show expected hasKey ⟨'s', d, some 't'⟩ = _
+  unfold expected
+  have hsc : ¬ (⟨'s', d, some 't'⟩ : Parsed).pre = 'c' := by show ¬ 's' = 'c'; decide
+  rw [if_neg hsc]
+  split
+  · rw [if_pos rfl]
+  · rfl
 
 /-- the names `cIJ` / `sIJ` the averages read: accepted, with these groups, and `attrKey` is the key they name -/
 theorem names_IJ : ∀ p ∈ allPairs,
